@@ -323,6 +323,7 @@ Qed.
 
 Lemma decide_ok k s E args : eff_ok s (decide k s E args).
 Proof.
+  unfold decide. destruct (needs_private k && negb (in_private E)); [exact Logic.I|].
   destruct k; simpl;
     auto using d_register_ok, d_unregister_ok, d_changename_ok, d_identify_ok, d_unidentify_ok, d_hostadd_ok,
       d_hostremove_ok, d_setpassword_ok, d_setsecure_ok, d_acapadd_ok, d_acapremove_ok, d_aignadd_ok,
